@@ -230,6 +230,10 @@ func cmdCheck(args []string) int {
 		o.Props = []string{prop}
 		obls = append(obls, o)
 	}
+	for _, o := range e.chanAliasObligations() {
+		o.Props = []string{prop}
+		obls = append(obls, o)
+	}
 	// property-specific structural obligations (guarded-by scans etc.)
 	extraObls, extraUnits := e.propertyExtras(prop, *only)
 	obls = append(obls, extraObls...)
